@@ -8,7 +8,7 @@
 (* transaction paying a fee while eFUND is locked.                           *)
 EXTENDS Genesis
 
-CONSTANTS MaxHeight, MaxTx, MaxFail, Amounts
+CONSTANTS MaxHeight, MaxTx, MaxFail, Amounts, WithFeeGrant
 VARIABLES st, phase, hist, nTx, nFail
 vars == <<st, phase, hist, nTx, nFail>>
 
@@ -22,7 +22,10 @@ Gen == [accts |-> Accts,
         bcn |-> [feeReg |-> 12, feeRec |-> 1, feePur |-> 5, denom |-> "nund", def |-> 2, max |-> 4, startId |-> 1],
         str |-> [feeNum |-> 1, feeDen |-> 100]]
 
-Init == st = StateOf(Gen) /\ phase = "idle" /\ hist = <<[a |-> "InitChain", g |-> Gen]>> /\ nTx = 0 /\ nFail = 0 /\ GoalRegsInit
+Pre == <<>>     \* no scripted prefix in this model
+Init == /\ st = FoldL(LAMBDA ev, s : Step(s, ev).st, StateOf(Gen), Pre)
+        /\ phase = (IF Pre = <<>> THEN "idle" ELSE "block")
+        /\ hist = <<[a |-> "InitChain", g |-> Gen]>> \o Pre /\ nTx = 0 /\ nFail = 0 /\ GoalRegsInit
 
 WReg(o) == [t |-> "WReg", owner |-> o, moniker |-> "m", name |-> "n", genesis |-> "g", type |-> "t"]
 BReg(o) == [t |-> "BReg", owner |-> o, moniker |-> "m", name |-> "n"]
@@ -49,6 +52,11 @@ TxAlphabet ==
   \cup { Tx(<<[t |-> "Send", from |-> "A1", to |-> x, amt |-> 5, denom |-> "nund"]>>) : x \in {"ent", "A3"} }
   \cup { TxFee(<<[t |-> "Send", from |-> "A3", to |-> "A1", amt |-> 1, denom |-> "nund"]>>, [nund |-> 1]) }
   \cup { TxFee(<<[t |-> "Exec", grantee |-> "A3", msgs |-> <<WRec("A3", 1, LastW(1) + 1)>>]>>, [nund |-> 2]) }
+  \* fee allowances: A1 (and A4, who is poor) let A3 pay fees from their accounts; A3's registry transactions then name a granter
+  \cup (IF ~WithFeeGrant THEN {} ELSE
+       { Tx(<<[t |-> x, granter |-> g, grantee |-> "A3"]>>) : x \in {"FGrant", "FRevoke"}, g \in {"A1", "A4"} }
+  \cup { TxFee(m, [nund |-> Exact(m)]) @@ [granter |-> g] : m \in {<<BReg("A3")>>, <<BRec("A3", 1)>>, <<WReg("A3")>>}, g \in {"A1", "A4"} }
+  \cup { TxFee(<<[t |-> "Send", from |-> "A3", to |-> "A1", amt |-> 1, denom |-> "nund"]>>, [nund |-> 1]) @@ [granter |-> "A1"] })
 
 Do(ev, ph) ==
   LET r == Step(st, ev) IN
